@@ -36,13 +36,13 @@ var c01Typed = map[string]any{
 }
 var c01TypedNames = []string{"int0", "false", "nil", "slice-tag", "map-tag", "slice-must", "float"}
 
-var c01Sinks = []string{"text", "vtext", "attri", "bound", "vbind", "nsattr"}
+var c01Sinks = []string{"text", "vtext", "attri", "bound", "vbind", "nsattr", "baretext"}
 var c01Neighs = []string{"N0", "Nplain", "NentBefore", "NampAfter", "NattrEnt", "NattrLt"}
-var c01Constructs = []string{"top", "if", "else", "forroot", "forrootOuter", "forchild", "incbound", "incinterp", "slotprop", "slotnamed", "layout", "iffor", "inpre", "slot2inc", "slot2incnamed", "forinc", "slot2", "slot2if", "slot2else", "slotloopif", "comp2if", "again", "increq", "incwrap", "increqslot"}
+var c01Constructs = []string{"top", "if", "else", "forroot", "forrootOuter", "forchild", "incbound", "incinterp", "slotprop", "slotnamed", "layout", "iffor", "inpre", "slot2inc", "slot2incnamed", "forinc", "slot2", "slot2if", "slot2else", "slotloopif", "comp2if", "again", "increq", "incwrap", "increqslot", "pageroot", "keep", "pagelayout", "strroot"}
 
 func c01NeighOK(sink, neigh string) bool {
 	switch sink {
-	case "text", "attri", "nsattr":
+	case "text", "attri", "nsattr", "baretext":
 		return true
 	}
 	return neigh == "N0" || neigh == "NattrEnt" || neigh == "NattrLt"
@@ -76,6 +76,8 @@ func c01Sink(sink, neigh, e, extra string) string {
 			return c01WrapHost(c01CurHost, el)
 		}
 		return el
+	case "baretext": // text that is not the child of an element of its file, next to a block element
+		return fmt.Sprintf(`%slead {{ %s }} tail%s<section id="s"%s%s><h1>k</h1></section>`, pre, e, post, extra, attr)
 	case "attri":
 		return fmt.Sprintf(`<p id="s"%s%s title="%sa{{ %s }}b%s"></p>`, extra, attr, pre, e, post)
 	case "nsattr": // attributes the parser puts into a namespace (xlink:href, xml:lang) inside foreign content
@@ -92,6 +94,14 @@ func c01Sink(sink, neigh, e, extra string) string {
 		return fmt.Sprintf(`<p id="s"%s%s :class="{ 'btn-{{ %s }}': t }" :data-k="{{ %s }}"></p>`, extra, attr, e, e)
 	case "vbind":
 		return fmt.Sprintf(`<p id="s"%s%s v-bind:title="%s"></p>`, extra, attr, e)
+	// bindings to the names of the attributes in which the engine keeps the evaluated output of
+	// v-html / v-text between evaluation and serialisation: refused, or an attribute like any other
+	case "reservedh":
+		return fmt.Sprintf(`<p id="s"%s%s :data-v-html-content="%s">a</p>`, extra, attr, e)
+	case "reservedt":
+		return fmt.Sprintf(`<p id="s"%s%s v-bind:data-v-text-content="%s">a</p>`, extra, attr, e)
+	case "reservedbr":
+		return fmt.Sprintf(`<p id="s"%s%s [data-v-html-content]="{{ %s }}">a</p>`, extra, attr, e)
 	}
 	panic("sink")
 }
@@ -165,6 +175,13 @@ func c01Program(sink, neigh, construct string) (Files, string) {
 	case "comp2if": // a cached component evaluated twice
 		f["page.vuego"] = `<div><template include="c.vuego" :p="v"></template><template include="c.vuego" :p="v"></template></div>`
 		f["c.vuego"] = `<i v-if="f">n</i>` + c01Sink(sink, neigh, "p", ` v-else`)
+	case "pageroot", "strroot": // the sink is the root of the page (strroot: the page is given as a string)
+		f["page.vuego"] = c01Sink(sink, neigh, "v", "") + `<p>after</p>`
+	case "keep": // ... or the content of a <template v-keep>
+		f["page.vuego"] = `<div><template v-keep>` + c01Sink(sink, neigh, "v", "") + `</template></div>`
+	case "pagelayout": // ... or the root of a page that goes into a layout
+		f["page.vuego"] = "---\nlayout: l\n---\n" + c01Sink(sink, neigh, "v", "") + "\n"
+		f["layouts/l.vuego"] = `<html><head><title>t</title></head><body><main v-html="content"></main></body></html>`
 	case "again": // the page is rendered twice on one engine, the second output is judged
 		f["page.vuego"] = `<div v-if="t">` + c01Sink(sink, neigh, "v", ` v-if="t"`) + `</div>`
 	case "layout":
@@ -286,6 +303,11 @@ func c01Ref(sink, neigh, construct string) string {
 }
 
 func c01Render(construct string, files Files, page string, data map[string]any) (string, error) {
+	if construct == "strroot" {
+		var out bytes.Buffer
+		err := vuego.NewFS(files.FS()).New().Fill(data).RenderString(bg, &out, files[page])
+		return out.String(), err
+	}
 	if construct != "again" {
 		return renderPage(files, page, data)
 	}
@@ -308,6 +330,9 @@ func c01Probe(ctx *core.Ctx, sink, neigh, construct string, v any) (mode, detail
 	ctx.Eval(1)
 	out, err := c01Render(construct, files, page, c01Data(v))
 	c01LastOut = out
+	if strings.HasPrefix(sink, "reserved") && err != nil && strings.Contains(err.Error(), "reserved") {
+		return "", "" // refused
+	}
 	if strings.HasPrefix(ref, "ERROR") {
 		return "reference-fails", ref
 	}
@@ -403,7 +428,7 @@ func init() {
 	core.Register(&core.Check{
 		ID:    "C01",
 		Level: "exploration",
-		Rule: "all token strings up to the bound over the alphabet " + fmt.Sprintf("%q", c01Alphabet) + " plus 7 non-string values, in every sink (text, v-text, interpolated attr, :attr, v-bind:attr, interpolated namespaced attributes xlink:href / xml:lang / xlink:title inside <svg>; plus, in 4 constructs, bound :class / :style / :title / :data-k whose expression is spelled with {{ }}) x static neighbourhood (6) x enclosing construct (" + fmt.Sprint(len(c01Constructs)) + ": 13 single-evaluation constructs (incl. a sink below <pre>) swept with the full alphabet, 12 constructs in which one source node is evaluated repeatedly - slot content used twice / in a loop, cached components, template-rooted components, a second render - swept with the 7 tokens that matter for repeated interpolation); plus a sizes part: every token at the start / middle / end of values of 21 lengths around 16 .. 4096 in every sink; " +
+		Rule: "all token strings up to the bound over the alphabet " + fmt.Sprintf("%q", c01Alphabet) + " plus 7 non-string values, in every sink (text, v-text, interpolated attr, :attr, v-bind:attr, interpolated namespaced attributes xlink:href / xml:lang / xlink:title inside <svg>; plus, in 4 constructs, bound :class / :style / :title / :data-k whose expression is spelled with {{ }}, and bindings to the engine's internal data-v-html-content / data-v-text-content attribute names, which must be refused or stay attributes) x static neighbourhood (6) x enclosing construct (" + fmt.Sprint(len(c01Constructs)) + ": 13 single-evaluation constructs (incl. a sink below <pre>) swept with the full alphabet, 12 constructs in which one source node is evaluated repeatedly - slot content used twice / in a loop, cached components, template-rooted components, a second render - swept with the 7 tokens that matter for repeated interpolation); plus a sizes part: every token at the start / middle / end of values of 21 lengths around 16 .. 4096 in every sink; " +
 			"oracle: HTML5 re-parse has the same element/attribute-name skeleton as with the value 'zqx', and a canary bound to `secret` never appears. non-trivial = value contains one of < > \" ' & {; distinct = distinct (context, token vector)",
 		Bounds:      map[string]string{"quick": "token strings of length <= 3 in all contexts; text and v-text sinks inside 15 special host elements (raw-text, RCDATA, noscript in both scripting modes, select, table, svg text, style / script inside svg and math) with the host's end tag added to the alphabet, length <= 3", "thorough": "token strings of length <= 3 in all contexts, length 4 in the N0 neighbourhood of every sink and construct"},
 		Assumptions: []string{"golang.org/x/net/html is a faithful HTML5 parser", "v-html sinks and script/style bodies are exempt and never used as sinks"},
@@ -456,7 +481,7 @@ func init() {
 			tokenStrings(c01Alphabet, 3, func(tok []int) {
 				val := joinTokens(c01Alphabet, tok)
 				for _, c := range []string{"top", "forchild", "incbound", "slot2"} {
-					for _, s := range []string{"bclassm", "bstylem", "bclassobjm"} {
+					for _, s := range []string{"bclassm", "bstylem", "bclassobjm", "reservedh", "reservedt", "reservedbr"} {
 						emit(&c01Case{Sink: s, Neigh: "N0", Construct: c, Tokens: append([]int(nil), tok...), Value: val})
 					}
 				}
